@@ -191,13 +191,14 @@ def staleReads (facts : List Access) (cleared : List Nat) (holderHb : Nat) (G S 
     registry lock AND the object's lock; also removes `o` from the registry, one atomic region),
     `lookup` = the thread finds `o` in the registry (needs the registry lock; only objects not
     torn down are in it), `check` = a nil re-check that passed (needs the object's lock),
-    `use` = a use of a cleared field. -/
+    `use` = a use of a cleared field (tagged with the static fact it instantiates). -/
 inductive LEv where
   | sync (e : Ev)
   | clear (t : Thread) (o : Nat)
   | lookup (t : Thread) (o : Nat)
   | check (t : Thread) (o : Nat)
-  | use (t : Thread) (o : Nat)
+  /-- use of a cleared field of `o` by `t`; `f` = index of the static fact this use instantiates -/
+  | use (t : Thread) (o : Nat) (f : Nat)
 deriving DecidableEq, Repr
 
 structure LState where
@@ -217,7 +218,7 @@ def lstep (G : Lock) (S : Nat → Lock) (s : LState) : LEv → Option LState
     else none
   | .lookup t o => if s.holder G = some t ∧ s.cleared o = false then some s else none
   | .check t o => if s.holder (S o) = some t ∧ s.cleared o = false then some s else none
-  | .use _ _ => some s
+  | .use _ _ _ => some s
 
 def lrun (G : Lock) (S : Nat → Lock) (s : LState) : List LEv → Option LState
   | [] => some s
